@@ -155,6 +155,7 @@ __CPROVER_ensures(!(__CPROVER_old(g_pos) == g_src_len && g_src_len > 0 && g_has_
 __CPROVER_ensures((__CPROVER_return_value == 0) ==> (g_pos == __CPROVER_old(g_pos) && ((g_pos == g_src_len && g_eof_seen) || g_err_seen)))
 __CPROVER_ensures((__CPROVER_old(g_pos) < g_src_len && !g_err_seen) ==> __CPROVER_return_value == buf)
 __CPROVER_ensures((__CPROVER_old(g_eof_seen) ==> g_eof_seen) && (__CPROVER_old(g_err_seen) ==> g_err_seen))
+__CPROVER_ensures((g_eof_seen && !__CPROVER_old(g_eof_seen)) ==> (__CPROVER_return_value == 0 && g_pos == g_src_len))   /* the eof indicator is only set at end-of-file */
 __CPROVER_ensures((__CPROVER_return_value != 0 && !g_overrun) ==> (__CPROVER_old(g_pos) < g_src_len && g_pos == __CPROVER_old(g_pos) + C14_FGETS_K(n) &&
                   g_fg_buf == buf && g_fg_len == C14_FGETS_K(n) && buf[C14_FGETS_K(n)] == 0 &&
                   g_eof_seen == __CPROVER_old(g_eof_seen) && g_err_seen == __CPROVER_old(g_err_seen)))
